@@ -95,6 +95,9 @@ def bshape(*shapes):
     return tuple(out)
 
 
+_METHODS = {}
+
+
 class SArr:
     __array_priority__ = 1000
 
@@ -162,6 +165,11 @@ class SArr:
                 pos += 1
         out.extend(self.shape[pos:])
         return SArr(tuple(out), self.kind)
+
+    def reshape(self, *shape, **kw):
+        if _METHODS.get("reshape") is None:
+            raise shadow.NotModelled("ndarray.reshape")
+        return _METHODS["reshape"](self, shape[0] if len(shape) == 1 else shape, **kw)
 
     def swapaxes(self, a, b):
         s = list(self.shape)
@@ -304,7 +312,29 @@ def linalg_impls():
         if axis is None:
             return SArr((1,) * len(sx_) if keepdims else (), "real")
         return SArr(reduce_shape(sx_, axis, keepdims), "real")
-    return dict(inv=l_inv, det=l_det, slogdet=l_slogdet, cholesky=l_cholesky, pinv=l_pinv, solve=l_solve, eigh=l_eigh, norm=l_norm)
+    def _smin2(a, b):
+        if isinstance(a, int) and isinstance(b, int):
+            return min(a, b)
+        ta, tb = dim_term(a), dim_term(b)
+        return cx.SInt(z3.If(ta <= tb, ta, tb))
+
+    def l_svd(a, full_matrices=True, compute_uv=True, hermitian=False):
+        sa = shape_of(a)
+        if len(sa) < 2:
+            raise ValueError("svd: at least 2-D required")
+        m, n = sa[-2], sa[-1]
+        k = _smin2(m, n)
+        s_ = SArr(sa[:-2] + (k,), "real")
+        if not compute_uv:
+            return s_
+        u = SArr(sa[:-2] + ((m, m) if full_matrices else (m, k)), fk(a))
+        vh = SArr(sa[:-2] + ((n, n) if full_matrices else (k, n)), fk(a))
+        return (u, s_, vh)
+
+    def l_eig(a):
+        sa = sq(a, "eig")
+        return (SArr(sa[:-1], "complex"), SArr(sa, "complex"))
+    return dict(inv=l_inv, det=l_det, slogdet=l_slogdet, cholesky=l_cholesky, pinv=l_pinv, solve=l_solve, eigh=l_eigh, norm=l_norm, svd=l_svd, eig=l_eig)
 
 
 def make_namespaces(oblig):
@@ -326,6 +356,8 @@ def make_namespaces(oblig):
         shp = tuple(shape) if isinstance(shape, (list, tuple, ShapeVec)) else (shape,)
         oblig("numpy-accepts-reshape(total size preserved)", size_term(shape_of(x)) == size_term(shp))
         return SArr(shp, kind_of(x))
+
+    _METHODS["reshape"] = a_reshape
 
     def a_where(c, a, b):
         return SArr(bshape(shape_of(c), shape_of(a), shape_of(b)), promote(kind_of(a), kind_of(b)))
@@ -640,8 +672,21 @@ def make_namespaces(oblig):
         return SArr(tuple(bshape(sa[:-1], sb[:-1])) + (3,), promote(kind_of(a), kind_of(b)))
 
     def a_concatenate(arrs, axis=0):
+        if all(not isinstance(v, SArr) for v in arrs):      # vectors of sizes (some symbolic): what the rules build reshape targets from
+            out = ShapeVec()
+            for v in arrs:
+                out.extend([int(e) if type(e).__module__ == "numpy" else e for e in v])
+            return out
         return a_concat_args(axis, *arrs)
-    impls.update(diag=a_diag, eye=a_eye, trace=a_trace, full=a_full, linspace=a_linspace, kron=a_kron, diff=a_diff, cross=a_cross, concatenate=a_concatenate)
+
+    def a_min(x, *a, **k):
+        if isinstance(x, (tuple, list)) and not a and not k and all(isinstance(e, (int, cx.SInt)) for e in x):
+            r = x[0]
+            for e in x[1:]:
+                r = _smin(r, e) if (isinstance(r, cx.SInt) or isinstance(e, cx.SInt)) else min(r, e)
+            return r
+        return a_sum(x, *a, **k)
+    impls.update(diag=a_diag, eye=a_eye, trace=a_trace, full=a_full, linspace=a_linspace, kron=a_kron, diff=a_diff, cross=a_cross, concatenate=a_concatenate, min=a_min)
     import numpy as _rnp
 
     def _abstract(v):
